@@ -10,7 +10,7 @@ RULE = (
     "Generated (Hypothesis): histories as for C20 (1..40 quick / 1..120 thorough commands; observers that unsubscribe "
     "themselves / another / subscribe a new observer inside their k-th callback) on an AsyncSubject; on_next values from "
     "the full domain incl. None and every falsy value. Enumerated: every command sequence of length <= 4 (quick) / <= 5 "
-    "(thorough) over an 11-symbol alphabet (values None and 1). Oracle: explicit model (observer list, last value + "
+    "(thorough) over a 12-symbol alphabet (values None and 1). Oracle: explicit model (observer list, last value + "
     "has-value flag, terminal state, disposed flag) compared after EVERY command: nothing is delivered before "
     "termination; on completion every subscribed observer, and every later subscriber, receives the last value (if any "
     "on_next was accepted, whatever its truthiness) then completion; on error only the error; DisposedException after "
@@ -20,7 +20,8 @@ RULE = (
     "truth value is False (it defines __len__ == 0). det (Engine DET, vlib/det.py: line-level yield points, cooperative locks, subject created after patching): thread A subject.subscribe(recorder) || thread B a fixed list of 1-3 emitting calls, 0/1 observer subscribed beforehand, either thread scheduled first; every schedule with <=1 (quick) / <=2 (thorough) preemptions is run; oracle = linearizability against the same sequential model: the racing subscriber's list must equal the model's list for SOME position of its subscribe in the emitter's call sequence (so its first notification is the value current at registration and nothing earlier follows), earlier subscribers see the sequential outcome, no deadlock/exception; non-trivial = calls overlapped and >=2 distinct outcomes observed. raising: histories whose observers are plain except one whose k-th handler raises; checked afterwards: observers served before "
     "it, every later notification to every subscribed observer, terminal / current value for later subscribers; left open: "
     "re-raise to the caller, the rest of that one delivery, the raiser itself; non-trivial there = a notification was delivered in a "
-    "later command than the raise. Distinct = distinct case JSON."
+    "later command than the raise. Histories also terminate through the public "
+    "Observer.fail(e) (no effect on a terminated/disposed subject): same terminal clauses as on_error. Distinct = distinct case JSON."
 )
 ASSUMPTIONS = [
     "as C20 (public subscribe, subscription-order delivery, unsubscribe inside subscribe() effective at its return, non-raising callbacks outside the raising check)",
@@ -39,6 +40,7 @@ _ALPHABET = [
     ["error", "e1"],
     ["completed"],
     ["dispose"],
+    ["fail", "e2"],
 ]
 
 
